@@ -275,6 +275,15 @@ def tick (s : St) (tx : Bytes) : St × Keepalive :=
   ({ tickState s with pending := if tickKeepalive s = .credentialed then s.pending ++ [tx] else s.pending },
    tickKeepalive s)
 
+/-! ### other consumers of STUN responses -/
+
+/-- `IceGatherer::probe_stun` (server-reflexive gathering): what it takes from the datagram it received for
+the request with transaction id `tx` (after the `fix:` that compares id, class and method) -/
+def probeAccept (tx : Bytes) (resp : Bytes) : Option Addr :=
+  match decode resp with
+  | .ok d => if d.tx = tx ∧ d.cls = .success ∧ d.method = .binding then d.mapped else none
+  | .error _ => none
+
 /-! ### the credential check of the code, on raw bytes -/
 
 /-- loop of `stun::verify_message_integrity` from byte offset `off` (`rest = pkt.drop off`) -/
